@@ -41,6 +41,7 @@ fn main() {
             e if e.starts_with("e3") => engines::e3::replay(&v),
             e if e.starts_with("e5") => engines::e5::replay(&v),
             e if e.starts_with("e6") => engines::e6::replay(&v),
+            e if e.starts_with("c19") => engines::c19::replay(&v),
             other => {
                 eprintln!("unknown engine {other}");
                 std::process::exit(2);
@@ -116,10 +117,19 @@ fn main() {
         "C15" => engines::c15::run_c15(&a, &shared),
         "C16" => engines::c16::run_c16(&a, &shared),
         "C17" => engines::e6::run_c17(&a, &shared),
+        "C19" => engines::c19::run_c19(&a, &shared),
         "C20" => engines::c20::run_c20(&a, &shared),
         "C08" => engines::e5::run_testers(&a, &shared, "C08"),
         "C14" => engines::e5::run_testers(&a, &shared, "C14"),
-        "C18" => engines::e5::run_c18_specs(&a, &shared),
+        "C18" => {
+            {
+                let mut r = shared.lock().unwrap();
+                r.rule = "(a) every operation sequence up to the length bound from every start value x every candidate return, and every (op, ret) history up to length 3, for the three specifications; (b) every reachable (state, shadow history) pair of every register-harness system in the family: scripted servers x 1-2 servers x 1-2 clients x put_count 0..2 x network kind x lossiness; non-trivial = clients issue at least one operation".into();
+                r.bounds = serde_json::json!({"spec_sequences": "<=4 (thorough 5) operations", "servers": "every single-state reply table + two-state tables that flip behaviour; Put -> {silent, PutOk[, PutFail]}, Get -> {silent, GetOk(v in 3 values)}", "clients": "1-2", "put_count": "0..2", "networks": "ordered / non-duplicating / duplicating, lossy and not"});
+            }
+            engines::e5::run_c18_specs(&a, &shared);
+            engines::c18::run_c18b(&a, &shared);
+        }
         "C06" => engines::e3::run_c06(&a, &shared),
         "C07" => engines::e3::run_c07(&a, &shared),
         "C09" => engines::e3::run_c09(&a, &shared),
